@@ -140,6 +140,7 @@ Meth(m, x, y, S) ==
     [] m = "sub"     -> Sub(x, y)
     [] m = "mul"     -> Mul(x, y, S)
     [] m = "div"     -> Div(x, y, S)
+    [] m = "split"   -> <<x, y>>          \* (offline since / until: the pair of operand values)
     [] OTHER         -> Undef
 
 \* _append: a sample is appended only if its value differs from the previous one
